@@ -58,6 +58,14 @@ func (s *vState) Initiate(ctx context.Context) error {
 func (s *vState) Receive(m net.Message) error {
 	s.l.mu.Lock()
 	s.l.received = append(s.l.received, m.(*vMsg).seq)
+	current := 1
+	for _, e := range s.l.events {
+		var i int
+		if n, _ := fmt.Sscanf(e, "next %d", &i); n == 1 {
+			current = i + 1
+		}
+	}
+	vAssert(s.i == current, "a message was handed to a state that is not the current one")
 	s.l.mu.Unlock()
 	s.ReceiveToHistory(m)
 	return nil
